@@ -187,6 +187,8 @@ def oracle(ops, records):
         #     finding — an out-of-order rollback must still undo exactly the work since that
         #     savepoint, and nothing rolled back may ever become visible to others
         why = None
+        if o["res"].startswith("EXC:") or o["res"].startswith("OBSERVE-ERROR"):
+            return ("c23-oracle", i, "step %d (%s) let an internal error escape: %s" % (i, tok, o["res"]))
         if exp["raises"] is True and res == "ok":
             why = "op %r on an ended/blocked transaction did not raise" % tok
         elif exp["raises"] is False and res != "ok":
